@@ -146,6 +146,30 @@ def clean(xs, rejected):
     return '\n'.join(x.text(i) for i, x in enumerate(xs) if i not in rejected)
 
 
+def write_layout(ctx, name, xs, cut, skip=()):
+    """one file, or (cut = (a, b)) the transactions a..b-1 in a file included from the middle of the main one: the reader
+    treats an include as the concatenation (C08), with the same options in force inside it (--permissive included)
+    -> (main path, {file base name: text})"""
+    def body(lo, hi):
+        return '\n'.join(x.text(i) for i, x in enumerate(xs) if lo <= i < hi and i not in skip)
+    main = ctx.path(name)
+    if cut is None:
+        texts = {name: body(0, len(xs))}
+    else:
+        a, b = cut
+        inc = name.replace('.dat', '_inc.dat')
+        texts = {name: body(0, a) + '\n\ninclude %s\n\n' % inc + body(b, len(xs)), inc: body(a, b)}
+    for k, v in texts.items():
+        open(ctx.path(k), 'w').write(v)
+    return main, texts
+
+
+def run_layout(ctx, name, xs, cut, extra, skip=()):
+    path, texts = write_layout(ctx, name, xs, cut, skip)
+    st, out, err = lib.run_ledger(['-f', path, 'reg', '--empty', '--no-rounding', '--format', X.REG_FMT] + list(extra))
+    return st, out, err, path, texts
+
+
 ERRS = X.ERR_CLASSES + [('Balance assertion off by', 'AssertOff'), ('Cannot strip commodity annotations', 'NullAmt')]
 
 
@@ -156,27 +180,35 @@ def run(ctx, n_override=None):
                 'accounts incl. a sub-account, 1-3 commodities, real, (virtual) and [balanced virtual] postings, an elided amount on a real or a '
                 '[balanced virtual] posting (absorbing up to three commodities), lots, dates deliberately out of file '
                 'order; `= X` on arbitrary postings: true assertions, false ones off by >= 1 display unit, bare-0 assertions, '
-                'assignments; with and without --permissive; non-trivial = the transaction carries an assertion or assignment; '
+                'assignments; with and without --permissive; in one file or with a stretch of the transactions in an included file; non-trivial = the transaction carries an assertion or assignment; '
                 'distinct by rendered text')
     n = n_override or ctx.scale(150, 3000)
     X.ERR_CLASSES[:] = ERRS
     lines, jobs = [], []
     for j in range(n):
         xs, exp = gen_history(rng)
-        permissive = rng.random() < 0.2
-        jobs.append((j, xs, exp, permissive))
+        permissive = rng.random() < 0.25
+        cut = None
+        if rng.random() < 0.35 and len(xs) > 2:
+            a = rng.randrange(1, len(xs))
+            cut = (a, rng.randrange(a + 1, len(xs) + 1))
+            permissive = rng.random() < 0.45
+        jobs.append((j, xs, exp, permissive, cut))
         lines.append(journal_sx('j%d' % j, xs, permissive))
     model = X.model_lines_to_map(lib.run_model('C09', lines))
-    for j, xs, exp, permissive in jobs:
+    for j, xs, exp, permissive, cut in jobs:
         jid = 'j%d' % j
         text = X.render_journal(xs)
         extra = ['--permissive'] if permissive else []
-        st, out, err, path = X.run_ledger_journal(ctx, 'C09_%d.dat' % (j % 6), text, extra)
-        errs = X.parse_errors(err, path, text)
+        st, out, err, path, texts = run_layout(ctx, 'C09_%d.dat' % (j % 6), xs, cut, extra)
+        res.count('layout:' + ('included-file' if cut else 'one-file') + (':permissive' if permissive else ''))
+        if cut:
+            text = '\n'.join('; ---- file %s\n%s' % kv for kv in texts.items())
+        errs = X.parse_errors(err, path, texts)
         rejected = set(k for k in errs if isinstance(k, int))
         rows = X.parse_reg(out)
         if rejected:
-            st2, out2, err2, _ = X.run_ledger_journal(ctx, 'C09_clean_%d.dat' % (j % 6), clean(xs, rejected), extra)
+            st2, out2, err2, _, _ = run_layout(ctx, 'C09_clean_%d.dat' % (j % 6), xs, cut, extra, skip=rejected)
             rows = X.parse_reg(out2)
             if st2 != 0:
                 res.notes.append('clean journal %s still has errors: %s' % (jid, err2.decode()[-200:]))
@@ -201,13 +233,13 @@ def run(ctx, n_override=None):
             want_reject = (e['kind'] == 'assert') and not permissive
             if want_reject and (i not in rejected or errs[i] != 'AssertOff'):
                 res.violations.append(dict(key='false-assertion-accepted', desc='a false balance assertion was not rejected',
-                                           case=dict(journal=text, xact=i, permissive=permissive), observed=impl, required='Balance assertion off by ...'))
+                                           case=dict(journal=text, xact=i, permissive=permissive, files=texts if cut else None), observed=impl, required='Balance assertion off by ...'))
             if not want_reject and i in rejected and not permissive and e['kind'] == 'ok':
                 res.violations.append(dict(key='true-assertion-rejected:' + errs[i], desc='a true balance assertion (or a transaction without one) was rejected: %s' % errs[i],
-                                           case=dict(journal=text, xact=i, permissive=permissive), observed=impl, required='accepted'))
+                                           case=dict(journal=text, xact=i, permissive=permissive, files=texts if cut else None), observed=impl, required='accepted'))
             if permissive and i in rejected and errs[i] == 'AssertOff':
                 res.violations.append(dict(key='permissive-assertion-failed', desc='--permissive but an assertion failed',
-                                           case=dict(journal=text, xact=i, permissive=True), observed=impl, required='accepted'))
+                                           case=dict(journal=text, xact=i, permissive=True, files=texts if cut else None), observed=impl, required='accepted'))
             if i in rows and e['kind'] == 'ok' and not permissive:
                 rws = rows[i]
                 for k, (sym, val) in e['assigned'].items():
@@ -230,7 +262,15 @@ def search(ctx, broken):
 def replay(ctx, obj):
     res = lib.Result()
     case = obj.get('case') or {}
-    if 'journal' in case:
+    if case.get('files'):
+        names = list(case['files'])
+        for k, v in case['files'].items():
+            open(ctx.path(k), 'w').write(v)
+        st, out, err = lib.run_ledger(['-f', ctx.path(names[0]), 'reg', '--empty', '--no-rounding', '--format', X.REG_FMT] + (['--permissive'] if case.get('permissive') else []))
+        print('status', st)
+        print(out.decode()[:3000])
+        print(err.decode()[:3000])
+    elif 'journal' in case:
         st, out, err, path = X.run_ledger_journal(ctx, 'replay.dat', case['journal'], ['--permissive'] if case.get('permissive') else [])
         print('status', st)
         print(out.decode()[:3000])
